@@ -1581,6 +1581,26 @@ class Exec:
         init = [c for c in d.get('inner', []) if c.get('kind') and not c['kind'].endswith(('Attr', 'Comment', 'Decl'))]
         ct = parse_type(d['type'])
         isref = d['type']['qualType'].rstrip().endswith('&')
+        if d.get('storageClass') == 'static' and not d['type'].get('qualType', '').lstrip().startswith('const') and not d.get('constexpr'):
+            # a mutable function-local static keeps whatever an earlier call left in it: its value at this point is
+            # arbitrary (the initialiser runs only on the very first call) — it is part of the unit's hidden input state
+            nm = d.get('name', 'static')
+            if ct.kind in ('int', 'float'):
+                st.env[vid] = self.havoc_val(st, IntV(I(0), ct) if ct.kind == 'int' else RealV(R(0), ct), f'static:{nm}')
+            elif ct.kind == 'class' and class_kind(ct.name) in ('vector',):
+                region = f'static:{nm}'
+                st.length[region] = State.fresh(f'len({region})', z3.IntSort())
+                st.assume(st.length[region] >= 0)
+                st.havoc_region(region)
+                st.env[vid] = ObjRef(region, ct.name)
+            elif ct.kind == 'class' and pod_of(ct.name):
+                v0 = self.ev_InitListExpr({'type': d['type'], 'inner': []}, st)
+                st.env[vid] = self.havoc_val(st, v0, f'static:{nm}')
+            else:
+                raise ExtractionError(f'{self.unit}: mutable static local {nm} of type {ct.name} not modelled (line {self.curline})')
+            self.logw(('v', vid))
+            self.notes.append(f'static local {nm}: arbitrary value at entry (persists between calls)')
+            return
         if not init:
             if ct.kind == 'class' and not pod_of(ct.name):
                 st.env[vid] = models.default_construct(self, st, d, ct)
